@@ -389,7 +389,7 @@ func main() {
 	panickyInjector(run, be, pan.px)
 	portReuse(run, be, sets[0].px)
 	run.Require("requests_whose_injector_panicked", 6)
-	run.Require("connections_from_the_address_of_an_earlier_connection", 8)
+	run.Require("connections_from_the_address_of_an_earlier_connection", 4)
 	run.Require("requests_judged_h2", 50)
 	run.Require("requests_judged_http/1.1", 50)
 	run.Require("requests_judged_conn_ja3-fails", 20)
